@@ -248,6 +248,18 @@ Theorem C13_kernel_wiring :
 Proof. exact kernel_wiring. Qed.
 Print Assumptions C13_kernel_wiring.
 
+(** "No from_gmat shares the label arrays of its source" is false of the current source: the VanRaden and Yang classes pass
+    [gmat.taxa] / [gmat.taxa_grp] themselves (witness: the generated table; confirmed on the implementation by the lifecycle
+    driver, known finding C13-vr-yang-share-label-arrays); it holds for the molecular and the weighted class. *)
+Theorem C13_labels_copied_refuted : map fst (filter (fun e => negb (row_copies (snd e))) k_labels) = ["vr"; "yang"]%string.
+Proof. exact labels_copied_refuted. Qed.
+Print Assumptions C13_labels_copied_refuted.
+
+Theorem C13_labels_copied_partial :
+  forallb (fun e => if (String.eqb (fst e) "mol" || String.eqb (fst e) "gw")%bool then row_copies (snd e) else true) k_labels = true.
+Proof. exact labels_copied_partial. Qed.
+Print Assumptions C13_labels_copied_partial.
+
 (** Yang's scaling with square roots, as written in the source, equals over the reals the rational closed form of the model:
     (z_i / sqrt v)(z_j / sqrt v) = z_i z_j / v with v = ploidy p (1-p) > 0 (the generated radicand). *)
 Theorem C13_kernel_yang_sqrt : forall ploidy p zi zj : Q, 0 < k_yang_var ploidy p ->
